@@ -311,7 +311,7 @@ func (in *Interp) assert(fr *frame, c *Term, id string, class string) {
 	}
 	neg := BNot(c)
 	r, _ := in.solver.Check(p.pc, neg, nil)
-	in.noteQuery(p.pc, neg, id)
+	in.noteQuery(p.pc, neg, id, r == Unsat)
 	switch r {
 	case Unsat:
 		in.stats.Discharged++
@@ -330,14 +330,15 @@ func (in *Interp) assert(fr *frame, c *Term, id string, class string) {
 	}
 }
 
-func (in *Interp) noteQuery(pc []*Term, extra *Term, id string) {
+func (in *Interp) noteQuery(pc []*Term, extra *Term, id string, discharged bool) {
 	h := fnv.New64a()
 	for _, c := range pc {
 		fmt.Fprintf(h, "%d,", c.id)
 	}
 	fmt.Fprintf(h, "|%d", extra.id)
 	in.queryHashes[h.Sum64()] = true
-	if _, ok := in.queryDump[id]; !ok && len(in.queryDump) < 64 {
+	// only discharged obligations are dumped (they are re-decided by the other solvers)
+	if _, ok := in.queryDump[id]; !ok && discharged && len(in.queryDump) < 64 {
 		in.queryDump[id] = QueryText(pc, extra)
 	}
 }
